@@ -317,6 +317,7 @@ func plan(prop, tier string) []run {
 	add("K1", "M1", 2, 90*time.Second)
 	add("K2", "M2", 2, 90*time.Second)
 	add("K1@v1", "M1", -1, 90*time.Second) // L2: single deliveries only, no flush
+	add("K0@v1", "M0", -1, 90*time.Second) // the same with four correct members (depth-bounded)
 	add("K7", "M1", 0, 90*time.Second)
 	return r
 }
